@@ -542,6 +542,7 @@ var headerSets = map[string][][2]string{
 	"multi":     {{"X-Multi", "a"}, {"X-Multi", "b"}, {"Accept", "text/html"}, {"Accept", "application/json;q=0.9"}, {"Cookie", "a=1; b=2"}},
 	"mixedcase": {{"x-LOWER-upper", "MiXeD vAlUe"}, {"ACCEPT-LANGUAGE", "de-CH"}},
 	"large":     {{"X-Large", strings.Repeat("v", 8000)}},
+	"huge":      {{"Cookie", "session=" + strings.Repeat("c", 60000)}, {"X-After-Huge", "still-here"}},
 	"hopbyhop":  {{"Connection", "keep-alive, X-Drop-Me"}, {"X-Drop-Me", "secret"}, {"Keep-Alive", "timeout=5"}, {"X-Keep", "yes"}},
 	"xff":       {{"X-Forwarded-For", "203.0.113.7"}, {"X-Forwarded-For", "198.51.100.9"}, {"User-Agent", "curl/8"}, {"Accept-Encoding", "identity"}},
 	"respextra": {{"X-Resp-Extra", "from-user"}},
@@ -584,7 +585,7 @@ func main() {
 		{Name: "http2http+rw", Plugin: "http2http", RewriteHost: true, ReqHeaders: true}, {Name: "https2http+rw", Plugin: "https2http", RewriteHost: true, ReqHeaders: true}}
 	methods := []string{"GET", "HEAD", "POST", "PUT", "DELETE", "PATCH", "OPTIONS"}
 	targets := []string{"/", "/a%2Fb", "/a%20b?x=1&y=%26", "//x", "/" + strings.Repeat("seg/", 200) + "?q=" + strings.Repeat("z", 500)}
-	hsets := []string{"none", "multi", "mixedcase", "large", "hopbyhop", "xff", "respextra"}
+	hsets := []string{"none", "multi", "mixedcase", "large", "huge", "hopbyhop", "xff", "respextra"}
 	bodies := []string{"none", "cl0", "small", "chunked"}
 	if !c.Quick() {
 		bodies = append(bodies, "big")
